@@ -23,6 +23,7 @@ for d in seeded/${1:-C}*/; do
     echo "$n $id exit=$code $sigs"
   done
   git -C /repo checkout -- .
+  git checkout -- evidence 2>/dev/null   # evidence written with a change applied describes the changed tree
   find replays -name '*.json' -delete
 done
 echo >> $OUT
